@@ -44,7 +44,7 @@ def gen_numeric_feature(rng, n, kind=None, need_finite=False):
 
 
 def _gen_numeric_feature(rng, n, kind=None):
-    kind = kind or rng.choice(["float", "float", "float_null", "float_nan", "float_inf", "int", "int_null", "const", "allnull", "few"])
+    kind = kind or rng.choice(["float", "float", "float_null", "float_nan", "float_inf", "int", "int_null", "const", "allnull", "few", "float32_nan", "float32_nan"])
     if kind == "allnull":
         return kind, [None] * n
     if kind == "const":
@@ -61,7 +61,7 @@ def _gen_numeric_feature(rng, n, kind=None):
     vals = [rng.randint(-40, 160) / 8 for _ in range(n)]
     if kind == "float_null":
         vals = [None if rng.random() < 0.2 else v for v in vals]
-    elif kind == "float_nan":
+    elif kind in ("float_nan", "float32_nan"):
         vals = [float("nan") if rng.random() < 0.2 else v for v in vals]
     elif kind == "float_inf":
         s = rng.choice([math.inf, -math.inf])
@@ -78,6 +78,8 @@ def numeric_series(kind, vals):
         return pl.Series("f", vals, dtype=pl.Int64)
     if kind == "allnull":
         return pl.Series("f", vals, dtype=pl.Float64)
+    if kind == "float32_nan":
+        return pl.Series("f", [None if v is None else float(v) for v in vals], dtype=pl.Float32)
     return pl.Series("f", [None if v is None else float(v) for v in vals], dtype=pl.Float64)
 
 
@@ -125,7 +127,7 @@ def string_series(dtype, vals, enum):
     return pl.Series("f", vals, dtype=pl.Utf8)
 
 
-def near_edge(v, edges, tol=1e-9):
+def near_edge(v, edges, tol=1e-6):
     if v is None or not math.isfinite(v):
         return False
     return any(e is not None and math.isfinite(e) and v != e and abs(v - e) <= tol * max(1.0, abs(e)) for e in edges)
